@@ -118,7 +118,14 @@ func (b *BTree) iterWalk(k Node, iterFn _gBtreeIterWrap, filter FilterFn, n int)
 	if n == 0 {
 		return nil
 	}
-	var ns = make([]Node, 0, n)
+	b.rw.RLock()
+	defer b.rw.RUnlock()
+	// never pre-size beyond what the tree can return: n may be as large as math.MaxInt
+	var size = n
+	if l := b.t.Len(); l < size {
+		size = l
+	}
+	var ns = make([]Node, 0, size)
 	var c = 0
 	var fn = func(v Node) bool {
 		if c >= n {
@@ -131,8 +138,6 @@ func (b *BTree) iterWalk(k Node, iterFn _gBtreeIterWrap, filter FilterFn, n int)
 		return true
 	}
 
-	b.rw.RLock()
-	defer b.rw.RUnlock()
 	iterFn(k, fn)
 	return ns
 }
